@@ -449,24 +449,24 @@ func c13MutationOK(father, son, mut string) string {
 	switch {
 	case f != '-' && t != '-':
 		if len(father) != len(son) || p < 0 || p >= len(father) {
-			return "substitution-position-out-of-range"
+			return "wrong-edit"
 		}
 		if f == t || father[p] != byte(f) || son[p] != byte(t) || father[:p]+string(t)+father[p+1:] != son {
-			return "substitution-does-not-give-son"
+			return "wrong-edit"
 		}
 	case f == '-' && t != '-':
 		if len(son) != len(father)+1 || p < 0 || p >= len(son) {
-			return "insertion-position-out-of-range"
+			return "wrong-edit"
 		}
 		if son[p] != byte(t) || son[:p]+son[p+1:] != father {
-			return "insertion-does-not-give-son"
+			return "wrong-edit"
 		}
 	case f != '-' && t == '-':
 		if len(father) != len(son)+1 || p < 0 || p >= len(father) {
-			return "deletion-position-out-of-range"
+			return "wrong-edit"
 		}
 		if father[p] != byte(f) || father[:p]+father[p+1:] != son {
-			return "deletion-does-not-give-son"
+			return "wrong-edit"
 		}
 	default:
 		return "gap-to-gap"
